@@ -155,7 +155,8 @@ theorem parseText_of_semiAppended (o : Lex.Oracles) (rv : List Char → Bool) (q
 with SELECT and contain no `;`, the texts `q`, `q ++ ";"` and `q ++ " ;"` parse to the same statement
 (`parsing::parse` answers a statement on one iff it answers that statement on the other).
 Side conditions: SELECT — the `;` of a CREATE TABLE statement is not optional (`C20Parse`, example); no `;` among the
-tokens of `q` — `q;` `;` is `TooManyTokens` (example there). Nothing is assumed about how `q` ends: a `;` appended
+tokens of `q` — necessary: a text ending in `;;` is accepted (`SELECT x FROM t;;` is) while the same text with one more `;`
+is `TooManyTokens` (example there). Nothing is assumed about how `q` ends: a `;` appended
 behind a `--` comment or inside an unterminated string literal disappears in the tokenizer, and the theorem holds
 there too (`Lex.tokenize_append_semi`). -/
 theorem trailing_semicolon_text (o : Lex.Oracles) (rv : List Char → Bool) (q : List Char)
